@@ -363,6 +363,8 @@ structure St where
   calls : List (Nat × Nat) := []
   /-- previous observation (for the name-clash frame clause) -/
   prev : String := ""
+  /-- actors a `terminate()` reached in this case (their child set is closed: a link to them is refused) -/
+  treeKilled : List Nat := []
 
 def feed {σ : Type} (next : σ → Ev → Except String σ) (m : Except String σ) (e : Ev) :
     Except String σ × Option String :=
@@ -460,7 +462,9 @@ def step (which : Prop3) (st : St) (opLine impl : String) : St × StepOut :=
           (m, acc.2 ++ f)
       let sn : Snap := {
         status := o.status, sup := o.sup,
-        inKids := obs.any (fun p => p.kids.contains o.id),
+        -- in the child set of its observed supervisor / of somebody who is not its supervisor
+        inKids := obs.any (fun p => some p.id == o.sup && p.kids.contains o.id),
+        foreign := obs.any (fun p => some p.id != o.sup && p.kids.contains o.id),
         nameHeld := tabs.any (fun t => names.contains t.1 && t.2 == [o.id]),
         ngroups := (tabs.filter (fun t => groups.contains t.1 && t.2.contains o.id)).length }
       let (m, f) := feedEv which mons o.id (.snap sn)
@@ -481,6 +485,25 @@ def step (which : Prop3) (st : St) (opLine impl : String) : St × StepOut :=
         fails ++ (if clash && wasFree then ["residue.name-not-reusable"] else [])
               ++ (if !clash && !wasFree then ["residue.clash-not-detected"] else [])
               ++ (if clash && !(afterBar impl == afterBar st.prev || st.names.contains n == false) then ["residue.clash-changed-state"] else [])
+      | _, _ => fails
+    -- C04, driver-level clauses about the public `link` / `unlink`: a link that must succeed (both sides
+    -- below `Draining` before the op, the new supervisor's child set not closed by a `terminate()`) makes
+    -- the target the supervisor; an `unlink` of the current supervisor clears it
+    let prevObs := match st.prev.splitOn " | " with
+      | _ :: f :: _ => parseStatuses f
+      | _ => []
+    let fails := match which, op with
+      | .c04, .link a p =>
+        match prevObs.find? (·.id == a), prevObs.find? (·.id == p), obs.find? (·.id == a) with
+        | some oa, some op', some na =>
+          if oa.status.rank < Status.draining.rank && op'.status.rank < Status.draining.rank
+              && !st.treeKilled.contains p && a != p && na.sup != some p
+          then fails ++ ["c04.link-ignored"] else fails
+        | _, _, _ => fails
+      | .c04, .unlink a p =>
+        match prevObs.find? (·.id == a), obs.find? (·.id == a) with
+        | some oa, some na => if oa.sup == some p && na.sup == some p then fails ++ ["c04.unlink-ignored"] else fails
+        | _, _ => fails
       | _, _ => fails
     -- non-trivial: the op reached the property's interesting branch
     let tgtA : Option Actor := if op = .case then none else some (st.w.get tgt)
@@ -505,7 +528,7 @@ def step (which : Prop3) (st : St) (opLine impl : String) : St × StepOut :=
       | .residue => ((match op with | .spawn _ _ _ _ | .pollSpawn _ | .spawnInstant _ _ _ _ => true | _ => false) && hasSub impl "ret Err(")
                 || ((match op with | .dropSpawn _ => true | _ => false) && !hasSub impl "nospawn")
                 || failedSpawn
-    ({ w := w', mons, hist, names, groups, waits, calls, prev := impl },
+    ({ w := w', mons, hist, names, groups, waits, calls, prev := impl, treeKilled := st.treeKilled ++ tkA },
      { model, oracle := fails, nontrivial, key := some (toString hist) })
 
 def run (which : Prop3) (ops impl : Array String) : IO Tally :=
